@@ -34,6 +34,17 @@ type callRec struct {
 	raw   []string // order as received
 }
 
+var ctxReplyText = "x:" + hx(context.Canceled.Error())
+
+// heldCmd: a command the connection still has to write although its caller gave up (the real pipe keeps the
+// caller's slice in its ring): peek reads the live slice element, want is its argv when it was queued.
+type heldCmd struct {
+	id   int
+	addr string
+	peek func() []string
+	want []string
+}
+
 type execInfo struct {
 	addr   string
 	serial int
@@ -60,6 +71,10 @@ type sim struct {
 	armed   bool // a redirect-class reply was handed out: the client scheduled a lazy refresh
 	used    map[string]int
 	topoReq int
+	held    []heldCmd
+	// reply texts / ids of the batch being answered (index = position in the received slice)
+	lastTexts []string
+	lastIDs   []int
 }
 
 func newSim(ver int) *sim {
@@ -97,6 +112,8 @@ func replyResult(kind, arg string, slot int) (rueidis.RedisResult, string) {
 		return rueidis.NewResult(rueidis.VerifErrMsg("CLUSTERDOWN wait"), nil), "e:" + hx("CLUSTERDOWN wait")
 	case "xerr":
 		return rueidis.NewErrorResult(errors.New("boom")), "x:" + hx("boom")
+	case "ctx": // what pipe.DoMulti answers when the caller's context ends while the batch is queued, unwritten
+		return rueidis.NewErrorResult(context.Canceled), ctxReplyText
 	case "err":
 		return rueidis.NewResult(rueidis.VerifErrMsg("ERR boom"), nil), "e:" + hx("boom")
 	case "nil":
@@ -216,10 +233,20 @@ func (n *nodeBackend) DoCache(ctx context.Context, cmd rueidis.Cacheable, ttl ti
 }
 
 // batch handles DoMulti / DoMultiCache: replies in received order, log in canonical order.
-func (n *nodeBackend) batch(kind string, multi []rueidis.Completed) []rueidis.RedisResult {
+func (n *nodeBackend) batch(kind string, multi []rueidis.Completed, peek func(i int) []string) []rueidis.RedisResult {
 	s := n.s
 	s.mu.Lock()
 	defer s.mu.Unlock()
+	defer func() {
+		// commands answered with the context error stay "queued": remember the caller's slice elements
+		for i := range multi {
+			if i < len(s.lastTexts) && s.lastTexts[i] == ctxReplyText {
+				i := i
+				s.held = append(s.held, heldCmd{id: s.lastIDs[i], addr: n.addr, peek: func() []string { return peek(i) }, want: append([]string(nil), peek(i)...)})
+			}
+		}
+		s.lastTexts, s.lastIDs = nil, nil
+	}()
 	items := make([]recvItem, len(multi))
 	raw := make([]string, len(multi))
 	phase := 0
@@ -254,7 +281,13 @@ func (n *nodeBackend) batch(kind string, multi []rueidis.Completed) []rueidis.Re
 				out[i+1] = rueidis.NewResult(rueidis.VerifArray(rueidis.VerifInt(-1), m), nil)
 			}
 		case it.id >= 0:
-			out[i], _ = s.answer(n.addr, it.id, it.multi)
+			var txt string
+			out[i], txt = s.answer(n.addr, it.id, it.multi)
+			for len(s.lastTexts) <= i {
+				s.lastTexts = append(s.lastTexts, "")
+				s.lastIDs = append(s.lastIDs, -1)
+			}
+			s.lastTexts[i], s.lastIDs[i] = txt, it.id
 		case it.text == "O:exec" && i > 0 && wrapped[i-1]:
 			// filled with the wrapped command
 		case it.text == "O:pttl":
@@ -311,8 +344,15 @@ func (n *nodeBackend) batch(kind string, multi []rueidis.Completed) []rueidis.Re
 	return out
 }
 
+func argvOf(c rueidis.Completed) []string {
+	if c.IsEmpty() {
+		return nil
+	}
+	return c.Commands()
+}
+
 func (n *nodeBackend) DoMulti(ctx context.Context, multi ...rueidis.Completed) []rueidis.RedisResult {
-	return n.batch("m", multi)
+	return n.batch("m", multi, func(i int) []string { return argvOf(multi[i]) })
 }
 
 func (n *nodeBackend) DoMultiCache(ctx context.Context, multi ...rueidis.CacheableTTL) []rueidis.RedisResult {
@@ -320,7 +360,33 @@ func (n *nodeBackend) DoMultiCache(ctx context.Context, multi ...rueidis.Cacheab
 	for i, m := range multi {
 		cs[i] = rueidis.Completed(m.Cmd)
 	}
-	return n.batch("mc", cs)
+	return n.batch("mc", cs, func(i int) []string { return argvOf(rueidis.Completed(multi[i].Cmd)) })
+}
+
+// consume: what the connection finds when it gets round to writing the abandoned commands
+func (s *sim) consume() (verdict string, detail string) {
+	s.mu.Lock()
+	defer s.mu.Unlock()
+	verdict = "intact"
+	for _, h := range s.held {
+		cur, bad := func() (cur []string, bad string) {
+			defer func() {
+				if r := recover(); r != nil {
+					bad = fmt.Sprint("panic: ", r)
+				}
+			}()
+			return h.peek(), ""
+		}()
+		switch {
+		case bad != "":
+			verdict, detail = "changed", fmt.Sprintf("command %d queued on %s: %s", h.id, h.addr, bad)
+		case len(cur) == 0:
+			verdict, detail = "changed", fmt.Sprintf("command %d queued on %s was wiped (want %q)", h.id, h.addr, h.want)
+		case strings.Join(cur, "\x00") != strings.Join(h.want, "\x00"):
+			verdict, detail = "changed", fmt.Sprintf("command %d queued on %s now reads %q (another caller's), want %q", h.id, h.addr, cur, h.want)
+		}
+	}
+	return
 }
 
 // drainLogs returns the canonical and raw per-node logs since the last call.
